@@ -921,6 +921,13 @@ func (repo *Repository) consolidate(ctx context.Context) error {
 		newBranches = append(newBranches, newOldestBranch)
 	}
 
+	// The branches between the longest and the oldest branch are part of the new main branch up to
+	// the height at which the next branch forks from them.
+	forkHeights := make(map[*Branch]int)
+	for current := longestBranch; current.parent != nil && current != oldestBranch; current = current.parent {
+		forkHeights[current.parent] = current.parentHeight
+	}
+
 	// Sort by parent height so they can be properly connected to the new main branch.
 	sort.Sort(repo.branches)
 
@@ -929,6 +936,22 @@ func (repo *Repository) consolidate(ctx context.Context) error {
 	for _, branch := range repo.branches {
 		if branch == oldestBranch || branch == longestBranch {
 			continue // already replaced by new branches
+		}
+
+		if forkHeight, exists := forkHeights[branch]; exists {
+			// Only the headers above the fork are not in the new main branch. Connecting the whole
+			// branch would duplicate the headers below it.
+			if branch.Height() <= forkHeight {
+				continue // all of the headers are in the new main branch
+			}
+
+			newBranch, err := branch.Truncate(ctx, repo.store, newMainBranch, forkHeight)
+			if err != nil {
+				return errors.Wrap(err, "truncate branch to main")
+			}
+
+			newBranches = append(newBranches, newBranch)
+			continue
 		}
 
 		newBranch, err := branch.Connect(ctx, repo.store, newBranches)
